@@ -127,7 +127,27 @@ def tasks():
                     out.append([os.path.relpath(full, root), f.read().hex()])
         return sorted(out)
 
-    _T.update(make=make, consume=consume)
+    @task(name="peek", namespace="vf_c04", version="1")
+    def peek(x=None, tag: int = 0):
+        return 1
+
+    @task(name="wrap", namespace="vf_c04", version="1")
+    def wrap(kind: str, root: str, how: str):
+        """Builds the external value inside its body and hands it to a child call: the value then
+        lives inside wrap's cached result EXPRESSION (as a positional or keyword argument, under a
+        lazy operator, nested in a container)."""
+        v = getattr(RF, kind)(unit_arg(FAM[kind], root, 0))
+        if how == "kw":
+            return peek(x=v)
+        if how == "pos":
+            return peek(v)
+        if how == "op":
+            return peek(v) + 0
+        if how == "kwnested":
+            return peek(x=[v, 1], tag=1)
+        return [peek(x={"k": v})]
+
+    _T.update(make=make, consume=consume, wrap=wrap, peek=peek)
     return _T
 
 
@@ -171,7 +191,7 @@ def cases(draw, cls: str, long: bool = False):
         ops.extend(draw(st.lists(mutations(fam), min_size=0, max_size=2)))
         ops.append(draw(run_op))
     return {"cls": cls, "shape": shape, "api": draw(st.booleans()), "salt": draw(st.sampled_from(["s", "tt"])),
-            "ops": ops[:16 if long else 10]}
+            "ops": ops[:16 if long else 10], "how": draw(st.sampled_from(["kw", "pos", "op", "kwnested", "listkw"]))}
 
 
 # ---------------------------------------------------------------- reference model
@@ -360,10 +380,51 @@ class World:
                 self.defect(f"result-stale:{K}", f"consume ran but the run's result {str(result)[:200]} does not "
                             f"describe the current files {str(want)[:200]}")
 
+    def run_embedded(self) -> None:
+        """Second execution: wrap() builds K(unit 0) in its body and passes it to peek(). wrap's
+        cached result expression holds that value, so it may be replayed only while the value is
+        valid under the reference model."""
+        how = self.case.get("how")
+        if not how:
+            return
+        T_ = tasks()
+        K = self.K
+        cur = self.tree.snapshot()
+        rec = getattr(self, "recorded_wrap", None)
+        if rec is None:
+            expect = 1
+        else:
+            valid = scope_view(self.kind, self.fam, 1, rec) == scope_view(self.kind, self.fam, 1, cur)
+            expect = 0 if valid else 1
+            self.labels.add(f"embedded:{how}:{'valid' if valid else 'invalid'}")
+        sched = C.new_scheduler(backend=self.backend)
+        ctl = C.Ctl()
+        ctl.attach(sched)
+        try:
+            sched.run(T_["wrap"](K, self.root, how))
+        except (Violation, StopCheck, HarnessError):
+            raise
+        except (C.Quiescent, C.StepBudget) as e:
+            raise HarnessError(f"controlled scheduler: {e!r}") from e
+        except Exception as e:  # noqa: BLE001
+            self.defect(f"run-raises:{K}:embedded", f"Scheduler.run(wrap) raised {type(e).__name__}: {str(e)[:200]}")
+            return
+        calls = ctl.calls.get("vf_c04.wrap", 0)
+        if calls >= 1:
+            self.recorded_wrap = cur
+        if expect == 1 and calls == 0:
+            self.defect(f"embedded-not-rerun:{K}:{how}",
+                        f"a task whose cached result expression holds a {K} (passed to a child call, form '{how}') was "
+                        f"replayed although that value is no longer valid; {diff_brief(rec or {}, cur)}")
+        elif expect == 0 and calls >= 1 and self.kind != "stat":
+            self.defect(f"embedded-rerun-though-valid:{K}:{how}",
+                        f"a task whose cached result expression holds a valid {K} (form '{how}') was re-executed")
+
     def step(self, k: int, op: list) -> None:
         self.step_no = k
         if op[0] == "run":
             self.run(op[1])
+            self.run_embedded()
         else:
             self.mutate(op)
 
